@@ -379,6 +379,7 @@ func (c *maComp) Gen(r *rand.Rand, tier string) []string {
 	var added []reg
 	nsubs := 0
 	targets := []string{"d", "d", "dev", "*", "a"}
+	org := []string{"oc", "openconfig"}[r.Intn(2)] // the origin name of this sequence (c06_seed7 special-cased the default origin)
 	pick := func() []string {
 		if len(pool) > 0 && r.Intn(5) != 0 {
 			p := cloneStrs(pool[r.Intn(len(pool))])
@@ -518,7 +519,7 @@ func (c *maComp) Gen(r *rand.Rand, tier string) []string {
 			target := targets[r.Intn(3)]
 			origin := ""
 			if r.Intn(4) == 0 {
-				origin = "oc"
+				origin = org
 			}
 			var pidx []string
 			if r.Intn(3) == 0 {
@@ -544,7 +545,7 @@ func (c *maComp) Gen(r *rand.Rand, tier string) []string {
 				}
 				po := ""
 				if r.Intn(4) == 0 {
-					po = "oc"
+					po = org
 				}
 				l += " " + maGTok("", po, e, maHints[r.Intn(len(maHints))])
 				full := []string{}
@@ -575,7 +576,7 @@ func (c *maComp) Gen(r *rand.Rand, tier string) []string {
 			tok, rest := gpfx(pick())
 			po := ""
 			if r.Intn(3) == 0 {
-				po = "oc"
+				po = org
 			}
 			seq = append(seq, "subq "+tok+" "+maGTok("", po, rest, maHints[r.Intn(len(maHints))]))
 		default:
